@@ -1,2 +1,2 @@
-/- C07 — theorems are being added; see harness/props/c07.py THEOREMS for the audited list. -/
-import DsdVerif.Model.Complex
+/- C07 — strand rotation is a structure-preserving relabelling: theorems are in Props/C07Rot.lean. -/
+import DsdVerif.Props.C07Rot
